@@ -172,6 +172,35 @@ class ValueKinds(Semantics):
         return dict(dialect=d.choice(['new', 'old']), specs=specs, matchers=ms, before=gen_session_state(d, V, ms))
 
 
+class NilArgs(Semantics):
+    """dedicated class: universes rich in nil object arguments of several declared interfaces x matchers that name interfaces
+    (a nil argument carries only its declared interface; matchers must judge every nil by its own)"""
+    name = 'nil-arguments'
+    PROFILE = dict(reuse=0.5, weights=dict(repeat=2, delete=6, bind=18, message=22, sync=2, nulls=50))
+
+    def examples(self, tier):
+        return 150 if tier == 'quick' else 14 * 1500
+
+    def gen(self, d, tier):
+        specs = histgen.history(d, nconn=d.int(1, 2), nmsg=d.int(10, 30), profile=self.PROFILE)
+        V = rm.vocab(specs)
+        niltypes = sorted({a[1] for m in specs for a in m['args'] if a[0] == 'obj' and a[2] is None and a[1]})
+        g = rm.Gen(d, V, self.depth(tier), focus='args')
+        ms = []
+        for k in range(6):
+            if niltypes and k < 3:
+                t = d.choice(niltypes)
+                ast = [[d.choice([['bare', None, ['type', t]], ['msg', None, None, None, [[['arg', None, ['word', t]]], []]]])], []]
+                try:
+                    rm.render(ast, rm.Plain())
+                except Exception:
+                    ast = g.top()
+            else:
+                ast = g.top()
+            ms.append(dict(ast=ast, deco=[d.int(0, 99) for _ in range(d.int(4, 12))]))
+        return dict(dialect=d.choice(['new', 'old']), specs=specs, matchers=ms, before=gen_session_state(d, V, ms))
+
+
 class C05(Prop):
     id = 'C05'
     rule = ('each case = a generated multi-connection history run through the real pipeline (the message universe) + 6 matcher ASTs drawn from '
@@ -183,7 +212,7 @@ class C05(Prop):
     assumptions = ['reference semantics = DESIGN appendix A (written from matchers.md and the statement)',
                    'grammar bounds: no empty alternatives/exclusion lists, no * inside exclusions, no object labels as argument values, '
                    'string atoms without quotes/brackets/parentheses/commas/!']
-    stages = [Semantics(), EnumArgs(), ValueKinds()]
+    stages = [Semantics(), EnumArgs(), ValueKinds(), NilArgs()]
 
 
 PROP = C05()
